@@ -141,6 +141,19 @@ impl Bundle<HfMetadataParams<'_, '_, '_>> for HfMetadata {
                     }
 
                     let (dw, dh) = dct_select.dct_select_size();
+                    if (dw > 1 || dh > 1) && (h_upsample || v_upsample) {
+                        tracing::error!(
+                            lf_group_idx,
+                            base_x = x,
+                            base_y = y,
+                            ?dct_select,
+                            "varblock larger than 8x8 is used with chroma subsampling",
+                        );
+                        return Err(jxl_bitstream::Error::ValidationFailed(
+                            "varblock larger than 8x8 is used with chroma subsampling",
+                        )
+                        .into());
+                    }
                     let x_in_group = (x % 32) as u32;
                     let y_in_group = (y % 32) as u32;
                     if x_in_group + dw > 32 || y_in_group + dh > 32 {
